@@ -81,7 +81,7 @@ Qed.
 Lemma ext_stable_pagree t P G th FI N1 N2 :
   is_tight P = true ->
   (forall r h, In r P -> head_pred (rhead r) = Some h -> ~ In h (task_inputs t)) ->
-  outputs_occur_in t P ->
+  c_io_disjoint t = true ->
   TauStar.tau_star P = Some G -> translate t (task_placeholders t) P = Some th ->
   pagree (ext_voc t P) N1 N2 -> (ext_stable_full t FI N1 P <-> ext_stable_full t FI N2 P).
 Proof.
@@ -107,7 +107,6 @@ Theorem countermodel_complete_forward t L w pbs lft rgt :
   external_decompose_full fuel t = XOk w pbs ->
   is_tight L = true -> is_tight (et_program t) = true ->
   tl t L = Some lft -> tr t = Some rgt ->
-  outputs_occur t ->
   (forall vt, task_validated tau_star_total completion (simp_classic_total fuel) t = Some vt -> validated_no_clash vt) ->
   rename_faithful t L -> ug_over_inputs t ->
   forall FI T,
@@ -117,11 +116,10 @@ Theorem countermodel_complete_forward t L w pbs lft rgt :
     (~ exists N, pub_agree t N T /\ ext_stable_full t FI N (et_program t)) ->
     exists M, pub_agree t M T /\ refutes_some FI M pbs.
 Proof.
-  intros Hs Ho Hfull HtL HtR El Er Hoc Hn [HC1 HC2] Hov FI T Hug Hdir HstL Hno.
-  pose proof Hoc as [HoL HoR]. rewrite Hs in HoL.
+  intros Hs Ho Hfull HtL HtR El Er Hn [HC1 HC2] Hov FI T Hug Hdir HstL Hno.
   destruct (full_ok_inv fuel t w pbs Hfull) as [[w0 Hv] [_ [[GR HGR] HGL]]].
   destruct (HGL L Hs) as [GL HGL'].
-  destruct (validate_conditions _ _ t w0 Hv) as [_ [Hpr [Hhead _]]].
+  destruct (validate_conditions _ _ t w0 Hv) as [_ [Hpr [Hhead [HoL _]]]]. pose proof HoL as HoR.
   unfold c_no_private_recursion in Hpr. rewrite Hs in Hpr. apply andb_true_iff in Hpr.
   destruct Hpr as [HpR HpL]. apply negb_true_iff in HpR, HpL.
   unfold c_no_input_in_head in Hhead. rewrite Hs in Hhead. apply andb_true_iff in Hhead. destruct Hhead as [HhR HhL].
@@ -186,7 +184,7 @@ Proof.
     apply (supported_agree M' (reindex m M) (ph_program FI ph R) privR); [| |exact HM2].
     - intros q Hq d Hl. symmetry. rewrite ph_program_preds in Hq. apply (F4 q Hq d Hl).
     - intros p Hp. rewrite ph_program_preds. apply (HprivR p Hp). }
-  apply (proj2 (C02_behaviour_proof fuel t L w pbs lft rgt Hs Ho Hfull HtL HtR El0 Er0 Hoc Hn FI M HugM Hal Har)).
+  apply (proj2 (C02_behaviour_proof fuel t L w pbs lft rgt Hs Ho Hfull HtL HtR El0 Er0 Hn FI M HugM Hal Har)).
   left. split; [exact Hdir|]. split; [exact HstM|].
   intros [N [HNpub HNst]]. apply Hno. exists N. split; [|exact HNst].
   intros q Hq d Hl. rewrite (HNpub q Hq d Hl). destruct q as [p n]. cbn in *. subst n. apply (proj2 (F3 p d Hq)).
@@ -198,7 +196,6 @@ Theorem countermodel_complete_backward t L w pbs lft rgt :
   external_decompose_full fuel t = XOk w pbs ->
   is_tight L = true -> is_tight (et_program t) = true ->
   tl t L = Some lft -> tr t = Some rgt ->
-  outputs_occur t ->
   (forall vt, task_validated tau_star_total completion (simp_classic_total fuel) t = Some vt -> validated_no_clash vt) ->
   rename_faithful t L -> ug_over_inputs t ->
   forall FI T,
@@ -208,11 +205,10 @@ Theorem countermodel_complete_backward t L w pbs lft rgt :
     (~ exists N, pub_agree t N T /\ ext_stable_full t FI N L) ->
     exists M, pub_agree t M T /\ refutes_some FI M pbs.
 Proof.
-  intros Hs Ho Hfull HtL HtR El Er Hoc Hn [HC1 HC2] Hov FI T Hug Hdir HstR Hno.
-  pose proof Hoc as [HoL HoR]. rewrite Hs in HoL.
+  intros Hs Ho Hfull HtL HtR El Er Hn [HC1 HC2] Hov FI T Hug Hdir HstR Hno.
   destruct (full_ok_inv fuel t w pbs Hfull) as [[w0 Hv] [_ [[GR HGR] HGL]]].
   destruct (HGL L Hs) as [GL HGL'].
-  destruct (validate_conditions _ _ t w0 Hv) as [_ [Hpr [Hhead _]]].
+  destruct (validate_conditions _ _ t w0 Hv) as [_ [Hpr [Hhead [HoL _]]]]. pose proof HoL as HoR.
   unfold c_no_private_recursion in Hpr. rewrite Hs in Hpr. apply andb_true_iff in Hpr.
   destruct Hpr as [HpR HpL]. apply negb_true_iff in HpR, HpL.
   unfold c_no_input_in_head in Hhead. rewrite Hs in Hhead. apply andb_true_iff in Hhead. destruct Hhead as [HhR HhL].
@@ -286,7 +282,7 @@ Proof.
     { unfold assumptions_of. generalize (control_translate public thr).
       intros l. induction l as [|a l IH]; cbn; [reflexivity|]. destruct (an_role a); cbn; rewrite IH; reflexivity. }
     rewrite E. apply tvalid_rename. exact Ha. }
-  apply (proj2 (C02_behaviour_proof fuel t L w pbs lft rgt Hs Ho Hfull HtL HtR El0 Er0 Hoc Hn FI M HugM Hal Har)).
+  apply (proj2 (C02_behaviour_proof fuel t L w pbs lft rgt Hs Ho Hfull HtL HtR El0 Er0 Hn FI M HugM Hal Har)).
   right. split; [exact Hdir|]. split; [exact HstM|].
   intros [N [HNpub HNst]]. apply Hno. exists N. split; [|exact HNst].
   intros q Hq d Hl. rewrite (HNpub q Hq d Hl). destruct q as [p n]. cbn in *. subst n. apply (proj1 (F3 p d Hq)).
@@ -307,14 +303,13 @@ Theorem countermodel_complete t L w pbs lft rgt :
   external_decompose_full fuel t = XOk w pbs ->
   is_tight L = true -> is_tight (et_program t) = true ->
   tl t L = Some lft -> tr t = Some rgt ->
-  outputs_occur t ->
   (forall vt, task_validated tau_star_total completion (simp_classic_total fuel) t = Some vt -> validated_no_clash vt) ->
   rename_faithful t L -> ug_over_inputs t ->
   forall FI T, behavioural_difference t L FI T -> exists M, pub_agree t M T /\ refutes_some FI M pbs.
 Proof.
-  intros Hs Ho Hfull HtL HtR El Er Hoc Hn Hrf Hov FI T [Hug [[Hd [H1 H2]]|[Hd [H1 H2]]]].
-  - exact (countermodel_complete_forward t L w pbs lft rgt Hs Ho Hfull HtL HtR El Er Hoc Hn Hrf Hov FI T Hug Hd H1 H2).
-  - exact (countermodel_complete_backward t L w pbs lft rgt Hs Ho Hfull HtL HtR El Er Hoc Hn Hrf Hov FI T Hug Hd H1 H2).
+  intros Hs Ho Hfull HtL HtR El Er Hn Hrf Hov FI T [Hug [[Hd [H1 H2]]|[Hd [H1 H2]]]].
+  - exact (countermodel_complete_forward t L w pbs lft rgt Hs Ho Hfull HtL HtR El Er Hn Hrf Hov FI T Hug Hd H1 H2).
+  - exact (countermodel_complete_backward t L w pbs lft rgt Hs Ho Hfull HtL HtR El Er Hn Hrf Hov FI T Hug Hd H1 H2).
 Qed.
 
 (* the property: the emitted problems are refuted by some interpretation exactly when the programs
@@ -324,14 +319,13 @@ Theorem external_equivalence_iff t L w pbs lft rgt :
   external_decompose_full fuel t = XOk w pbs ->
   is_tight L = true -> is_tight (et_program t) = true ->
   tl t L = Some lft -> tr t = Some rgt ->
-  outputs_occur t ->
   (forall vt, task_validated tau_star_total completion (simp_classic_total fuel) t = Some vt -> validated_no_clash vt) ->
   rename_faithful t L -> ug_over_inputs t ->
   forall FI, (exists M, refutes_some FI M pbs) <-> (exists T, behavioural_difference t L FI T).
 Proof.
-  intros Hs Ho Hfull HtL HtR El Er Hoc Hn Hrf Hov FI. split.
+  intros Hs Ho Hfull HtL HtR El Er Hn Hrf Hov FI. split.
   - intros [M Href].
-    pose proof (C02_countermodel_proof fuel t L w pbs lft rgt Hs Ho Hfull HtL HtR El Er Hoc Hn FI M Href) as Hd.
+    pose proof (C02_countermodel_proof fuel t L w pbs lft rgt Hs Ho Hfull HtL HtR El Er Hn FI M Href) as Hd.
     (* the user-guide assumptions are axioms of every problem *)
     assert (Hug : tvalid FI M (ug_assumptions t)).
     { destruct (full_ok_inv fuel t w pbs Hfull) as [_ [Hdt _]].
@@ -359,7 +353,7 @@ Proof.
       * right. split; [exact Hd|]. split; [exact H1|].
         intros [N [HN1 HN2]]. apply H2. exists N. split; [apply Hpubr; exact HN1|exact HN2].
   - intros [T HT].
-    destruct (countermodel_complete t L w pbs lft rgt Hs Ho Hfull HtL HtR El Er Hoc Hn Hrf Hov FI T HT) as [M [_ HM]].
+    destruct (countermodel_complete t L w pbs lft rgt Hs Ho Hfull HtL HtR El Er Hn Hrf Hov FI T HT) as [M [_ HM]].
     exists M. exact HM.
 Qed.
 
